@@ -27,7 +27,32 @@ const (
 	ExclForeignWithdr  = "WITHDRAW:foreign-validator-address" // C11: never name an address without a validator record in WITHDRAW
 	ExclZeroPowerStake = "STAKE:zero-power-record"            // C11: never stake on a record whose previous-block power is 0
 	ExclPurgedVerdict  = "ALLEGATION:accused-just-purged"     // C11: no allegation against a validator purged in the last 2 blocks
+	ExclGhostMember    = "UNSTAKE:to-zero-while-entering-set" // C10: never unstake to zero a validator that is elected but not yet a settled member of the tendermint set
 )
+
+// ZeroUnstakeSafe reports whether unstaking a validator's whole stake cannot leave it behind in
+// the tendermint set: it is a member of all three pipeline sets (then the removal is issued in
+// the block that deletes its record), or it is in none of them and not electable.
+func ZeroUnstakeSafe(w *hist.World, v *View, addr string) bool {
+	_, inL := InSet(w.C.Last, addr)
+	_, inV := InSet(w.C.Vals, addr)
+	_, inN := InSet(w.C.Next, addr)
+	if inL && inV && inN {
+		return true
+	}
+	if inL || inV || inN {
+		return false
+	}
+	r := v.Vals[addr]
+	if r == nil {
+		return true
+	}
+	min := v.Staking.Min
+	if w.P.Frankenstein > w.C.Height && min.Cmp(big.NewInt(500000)) > 0 {
+		min = big.NewInt(500000)
+	}
+	return big.NewInt(r.Power).Cmp(min) < 0
+}
 
 // FocusParams draws a genesis configuration for focused staking / evidence histories.
 // shape: "small" (genesis-sized options: top 1-5, maturity 1-4, candidates around the boundary)
@@ -77,10 +102,6 @@ func FocusParams(t *rapid.T, seedTag, shape string, excl func(string) bool) sim.
 		}
 		p.ExtraVals = u.Range(2, 3, "extra")
 	}
-	if p.ValPower[0] < 700000 && (p.Frankenstein != 0 || shape == "gov") && excl != nil && excl(ExclLastEligible) {
-		// the anchor validator (index 0) stays electable under every option value a history can reach
-		p.ValPower[0] = 700000 + p.ValPower[0]%7
-	}
 	p.Evidence.BlockVotesDiff = int64(u.Range(2, 5, "bvd"))
 	p.Evidence.MinVotesRequired = int64(u.Range(1, int(p.Evidence.BlockVotesDiff), "mvr"))
 	if u.Range(0, 2, "lenientvotes") != 0 {
@@ -92,7 +113,30 @@ func FocusParams(t *rapid.T, seedTag, shape string, excl func(string) bool) sim.
 	p.Evidence.AllegationPercentage = int64(sample(u, []int{50, 50, 34, 66}, "allegpct"))
 	p.Evidence.PenaltyBountyPercentage = int64(sample(u, []int{50, 50, 100, 0}, "bountypct"))
 	p.Evidence.PenaltyBurnPercentage = 100 - p.Evidence.PenaltyBountyPercentage
+	ProtectParams(&p, excl)
 	return p
+}
+
+// ProtectParams applies the by-construction part of the last-eligible exclusion to a genesis:
+// the anchor validator (index 0) stays electable under every option value a history can reach
+// (fork block and governance raise the minimum self delegation to at most 600000), and the
+// missed-votes rule cannot freeze a validator merely for having been re-elected (a validator
+// elected at E first shows up in the commit votes of block E+3, so at the end of its grace
+// period it can hold at most blockVotesDiff-2 votes).
+func ProtectParams(p *sim.Params, excl func(string) bool) {
+	if excl == nil {
+		return
+	}
+	if p.ValPower[0] < 700000 && (p.Frankenstein != 0 || p.Maturity >= 100000) && excl(ExclLastEligible) {
+		p.ValPower[0] = 700000 + p.ValPower[0]%7
+	}
+	lim := p.Evidence.BlockVotesDiff - 2
+	if lim < 1 {
+		lim = 1
+	}
+	if p.Evidence.MinVotesRequired > lim && excl(ExclLastEligible) {
+		p.Evidence.MinVotesRequired = lim
+	}
 }
 
 // Focus draws staking / evidence transactions that reach deep states in short histories.
@@ -352,6 +396,9 @@ func (f *Focus) unstake(v *View) []txgen.Tx {
 		if f.excl(ExclLastEligible) && r.Addr == AnchorAddr(f.W) {
 			return nil
 		}
+	}
+	if amt == cur && !ZeroUnstakeSafe(f.W, v, r.Addr) && f.excl(ExclGhostMember) {
+		return nil
 	}
 	tx := txgen.Unstake(val.Key.Addr, acct.Addr, wholeAmt(amt), f.W.Fee, f.W.Memo(), acct, val.Key)
 	tx.Tags = tags
@@ -943,6 +990,9 @@ func FilterShared(w *hist.World, v *View, txs []txgen.Tx, excl func(string) bool
 		switch ti.Kind {
 		case "UNSTAKE":
 			drop = ti.Val == anchor && excl(ExclLastEligible)
+			if r := v.Vals[ti.Val]; !drop && r != nil && ti.Amount.IsInt64() && ti.Amount.Int64() >= r.Power && r.Power > 0 {
+				drop = !ZeroUnstakeSafe(w, v, ti.Val) && excl(ExclGhostMember)
+			}
 		case "ALLEGATION":
 			drop = (ti.Accused == anchor && excl(ExclLastEligible)) ||
 				(h <= v.Evidence.BlockVotesDiff && excl(ExclEarlyVerdict)) ||
